@@ -168,8 +168,20 @@ def safe_callable_names(root: ast.Module) -> Collection[str]:
         elif isinstance(node, ast.ExceptHandler) and node.name:
             bindings[node.name] += 1
     defined_names.update(name for name, count in bindings.items() if count > 1)
-    function_defs = list(core.walk(root, (ast.FunctionDef, ast.AsyncFunctionDef)))
-    safe_callables = set(constants.SAFE_CALLABLES)
+    # A method is not what its bare name calls
+    methods = {
+        child
+        for node in core.walk(root, ast.ClassDef)
+        for child in node.body
+        if isinstance(child, (ast.FunctionDef, ast.AsyncFunctionDef))
+    }
+    function_defs = [
+        node
+        for node in core.walk(root, (ast.FunctionDef, ast.AsyncFunctionDef))
+        if node not in methods or node.name in ("__init__", "__post_init__", "__new__")
+    ]
+    # A builtin whose name is bound in the module may be something else where it is called
+    safe_callables = set(constants.SAFE_CALLABLES) - set(bindings) - defined_names
     safe_callable_nodes = set()
     changes = True
     while changes:
@@ -210,7 +222,17 @@ def safe_callable_names(root: ast.Module) -> Collection[str]:
             if core.match_template(
                 child, ast.FunctionDef(name=("__init__", "__post_init__", "__new__"))
         )}
-        if not constructors - safe_callable_nodes:
+        # A constructor that is defined in a nested block, or assigned, is not looked at
+        constructor_names = ("__init__", "__post_init__", "__new__")
+        other_constructors = {
+            child
+            for child in ast.walk(node)
+            if child not in constructors
+            and (
+                getattr(child, "name", None) in constructor_names
+                or (isinstance(child, ast.Name) and child.id in constructor_names)
+        )}
+        if not constructors - safe_callable_nodes and not other_constructors:
             safe_callables.add(node.name)
 
     return safe_callables
